@@ -4769,8 +4769,10 @@ class ParseCtx:
             return ActionNode(SetToStr(result, targeted))
         elif not is_append:
             if targeted.type == OutputStorageType.RAW:
-                raise IllegalParseTree("Raw types only support append expressions, did you mean +=?", sub_expr)
+                raise IllegalParseTree("Raw types only support append expressions, did you mean +=?", stmt.children[1])
             return ActionNode(SetTo(self._parse_integer_expr(stmt.children[1], targeted), targeted))
+        else:
+            raise IllegalParseTree("Only strings and raw outputs can be appended to, did you mean =?", stmt.children[1])
 
     def _parse_case_clause(self, clause: lark.Tree):
         result_set = set()
